@@ -51,14 +51,19 @@ def c20(ctx):
     n = 60 if ctx.quick else 600
     jobs = []
     for _ in range(n):
-        ps = rng.choice(["rw", "rw", "rw+rw", "ro", "none", "rw+ro", "ro+rw"])
+        ps = rng.choice(["rw", "rw+rw", "rw+rw", "ro", "none", "rw+ro", "ro+rw"])
         item = G.make_item(rng, G.gen_prog(rng, patch=rng.random() < 0.3), ps, stackok=rng.random() < 0.9)
         script = [{"c": "run", "s": 0}]
-        if rng.random() < 0.4:
-            s = rng.randrange(0, len(item["prog"]))
+        if rng.random() < 0.5:
+            # a breakpoint, preferably on the loop instruction (single-instruction loops included)
+            loops = [i for i, x in enumerate(item["prog"]) if x["k"] in ("LOOP", "JNZ")]
+            s = rng.choice(loops) if loops and rng.random() < 0.6 else rng.randrange(0, len(item["prog"]))
             script = [{"c": "addbp", "s": s, "stops": rng.random() < 0.3}] + script
+        if rng.random() < 0.5 and ps == "rw+rw" and item["stackok"]:
+            # memory breakpoints (read / write) on the data window; the run is resumed after each stop
+            script = [G.gen_mbp(rng) for _ in range(rng.randrange(1, 3))] + script + [{"c": "cont"}, {"c": "cont"}, {"c": "cont"}]
         for be in BACKENDS:
-            jobs.append((item, script, be, {"maxline": 50}))
+            jobs.append((item, script, be, rng.choice([{"maxline": 50}, {"maxline": 50}, {"maxline": 2}])))
     report(ctx, G.judge_jobs(ctx, jobs, "c20"), "C20", "backend-differs-from-reference")
     ctx.assumptions += COMMON_ASSUMPTIONS
     return ("random abstract-ISA programs (hash-chain / push log / loop / stores, 4-byte stores straddling pages, loads, self-patching) "
